@@ -393,13 +393,13 @@ def c03_order(m, run):
             # distance of two knots) below an interior knot lies in the span *before* that knot, the same amount above it in the span
             # that starts there: no tolerance of the search may move it across the knot
             if u in ranks and ranks[p] < u < ranks[n]:
-                for du in (-1e-6, 1e-6):
+                for du in (-1e-6, 1e-6, -1e-9, 1e-9):          # (and 10^-9: the span searches compare exactly, any genuine amount counts)
                     wn = [i for i in range(p, n) if (ranks[i] < u if du < 0 else ranks[i] <= u) and (u <= ranks[i + 1] if du < 0 else u < ranks[i + 1])]
                     wn = wn[0] if len(wn) == 1 else None
 
                     def postn(sk, out, wn=wn, du=du):
                         if out != wn:
-                            raise Violation('OT1', 'a parameter 1e-6 %s an interior knot: returned span %r, the half-open interval containing it is %r' % ('below' if du < 0 else 'above', out, wn))
+                            raise Violation('OT1', 'a parameter %g %s an interior knot: returned span %r, the half-open interval containing it is %r' % (abs(du), 'below' if du < 0 else 'above', out, wn))
                     t.add((p, n, ranks, u, du), run1(m, fkey, [p, kv, n, Ord(u, du)], {}, postn))
         wantm = sum(1 for r in ranks if r == u)
 
@@ -2770,7 +2770,7 @@ def el2(m, run):
     for p in (1, 2, 3):
         for t in (1, 2):
             nr_ += 1
-            R = [[[Poly.atom('R_%d_%d_%d' % (j, r, c)) for c in range(2)] for r in range(2)] for j in range(p + 1)]
+            R = [[[Poly.atom('R_%d_%d_%d' % (j, r, c)) for c in range(2)] for r in range(3)] for j in range(p + 1)]          # (rows of three points of two coordinates)
             sk = SK(m, ab)
             sk.exact = True
             try:
@@ -2779,7 +2779,7 @@ def el2(m, run):
                 if not isinstance(out, list) or len(out) != p + t + 1:
                     why = '%r rows, expected %d' % (len(out) if isinstance(out, list) else out, p + t + 1)
                 else:
-                    for r in range(2):
+                    for r in range(3):
                         want = elevate([R[j][r] for j in range(p + 1)], p, t)
                         for i in range(p + t + 1):
                             for c in range(2):
@@ -2799,7 +2799,7 @@ def el2(m, run):
                     sk2.exact = True
                     back = sk2.call(m.func('helpers.degree_reduction'), [p + 1, out], {})
                     for j in range(p + 1):
-                        for r in range(2):
+                        for r in range(3):
                             for c in range(2):
                                 s = _as_sym(back[j][r][c])
                                 if s is None or not s.same(Sym(R[j][r][c])):
@@ -3566,6 +3566,7 @@ def evx(m, run):
             hd = 3 + (1 if rat else 0)
             dd = datadict(pdim, degs, sizes, 3, rat)
             dd['sample_size'] = tuple(samples)
+            dd['precision'] = 2         # (a shape built with a small precision: the setting rounds sampling parameters and knots, never points or weights)
             total = 1
             for s_ in sizes:
                 total *= s_
@@ -3723,7 +3724,8 @@ def bf3(m, run):
             (2, [F(0)] * 3 + [F(1, 3), F(2, 3)] + [F(1)] * 3),
             (3, [F(0)] * 4 + [F(1, 4), F(1, 2), F(1, 2), F(3, 4)] + [F(1)] * 4),
             (2, [F(-1)] * 3 + [F(1, 2), F(1, 2), F(3)] + [F(5)] * 3),
-            (3, [F(0), F(1), F(2), F(3), F(4), F(5), F(6), F(7), F(8)])]           # un-clamped, uniform
+            (3, [F(0), F(1), F(2), F(3), F(4), F(5), F(6), F(7), F(8)]),           # un-clamped, uniform
+            (2, [F(0)] * 3 + [F(1, 2), F(1, 2) + F(1, 2 ** 40)] + [F(1)] * 3)]     # a span of width 2^-40: knots that differ, however little, are different knots
     if run.tier == 'thorough':
         nets.append((4, [F(0)] * 5 + [F(1, 5), F(2, 5), F(2, 5), F(2, 5), F(7, 10)] + [F(1)] * 5))
     fb, fall, fone = m.func('helpers.basis_function'), m.func('helpers.basis_function_all'), m.func('helpers.basis_function_one')
@@ -4632,14 +4634,17 @@ def jr2(m, run, rule='JR2.dictionary-round-trip-on-real-classes'):
     from .skel import Sym
     from .poly import Poly
     cases = (('crv', 'Curve', (2,), (4,)), ('surf', 'Surface', (2, 1), (3, 4)), ('vol', 'Volume', (1, 2, 1), (2, 3, 2)))
-    for tag, cname, degs, sizes, mod in [c_ + ('NURBS',) for c_ in cases] + [c_ + ('BSpline',) for c_ in cases]:
+    # (third family: rational shapes whose weights are all one and the same non-unit value - equal weights are still weights)
+    for tag, cname, degs, sizes, mod in [c_ + ('NURBS',) for c_ in cases] + [c_ + ('BSpline',) for c_ in cases] + [c_ + ('NURBS-uniform',) for c_ in cases]:
+        uniform = mod == 'NURBS-uniform'
+        mod = 'NURBS' if uniform else mod
         pdim = len(degs)
         total = 1
         for s_ in sizes:
             total *= s_
         ab = dict(STD_ABSTRACTED)
         ab[('knotvector', 'normalize')] = Py(lambda sk, node, kv, *a, **k: [Ord(x.rank) for x in kv], 'knotvector.normalize')
-        key = '_exchange.export_dict_%s -> import_dict_%s' % (tag, tag)
+        key = '_exchange.export_dict_%s -> import_dict_%s' % (tag, tag) + (' :: one weight for all points' if uniform else '')
 
         def mk_sk(ab=ab):
             sk_ = SK(m, ab)
@@ -4647,11 +4652,12 @@ def jr2(m, run, rule='JR2.dictionary-round-trip-on-real-classes'):
             sk_.construct = True
             return sk_
 
-        def scenario(sk, tag=tag, cname=cname, degs=degs, sizes=sizes, mod=mod, pdim=pdim, total=total, key=key):
+        def scenario(sk, tag=tag, cname=cname, degs=degs, sizes=sizes, mod=mod, pdim=pdim, total=total, key=key, uniform=uniform):
             why = None
             src = sk.apply(('class', (mod, cname)), [], {}, None)
+            W_ = Sym('W')
             # (a B-spline shape is exported without weights and comes back as a rational shape with unit weights)
-            Pw = [[Sym('P%d_%d' % (i, c)) for c in range(4)] for i in range(total)] if mod == 'NURBS' else [[Sym('P%d_%d' % (i, c)) for c in range(3)] + [Sym(Poly.const(1))] for i in range(total)]
+            Pw = [[Sym('P%d_%d' % (i, c)) for c in range(3)] + [W_] for i in range(total)] if uniform else [[Sym('P%d_%d' % (i, c)) for c in range(4)] for i in range(total)] if mod == 'NURBS' else [[Sym('P%d_%d' % (i, c)) for c in range(3)] + [Sym(Poly.const(1))] for i in range(total)]
             suffix = [''] if pdim == 1 else ['_' + 'uvw'[d] for d in range(pdim)]
 
             def setp(obj, name, value):
@@ -6909,8 +6915,9 @@ def vx2(m, run, rule='VX2.voxel-grid-tiles-the-box'):
     from fractions import Fraction as F
     fi = m.func('_voxelize.generate_voxel_grid')
     bad, cnt = [], 0
-    for bbox, sz in ((((0, 0, 0), (2, 3, 6)), (3, 4, 4)), (((-1, 2, 0), (1, 3, 4)), (5, 2, 3)), (((0, 0, 0), (1, 1, 1)), (2, 3, 5))):
-        for cubes in (False, True):
+    # (the last box is flat: a planar surface has a bounding box without thickness along one axis - one layer of voxels of height 0)
+    for bbox, sz in ((((0, 0, 0), (2, 3, 6)), (3, 4, 4)), (((-1, 2, 0), (1, 3, 4)), (5, 2, 3)), (((0, 0, 0), (1, 1, 1)), (2, 3, 5)), (((0, 0, 0), (2, 3, 0)), (3, 4, 2))):
+        for cubes in ((False, True) if bbox[1][2] != bbox[0][2] else (False,)):
             cnt += 1
             sk = SK(m, {})
             sk.exact = True
@@ -6919,7 +6926,9 @@ def vx2(m, run, rule='VX2.voxel-grid-tiles-the-box'):
                 out = sk.call(fi, [[list(map(F, bbox[0])), list(map(F, bbox[1]))], list(sz)], {'use_cubes': cubes})
                 out = list(out) if not isinstance(out, list) else out
                 vox = [[[F(c) for c in corner] for corner in v_] for v_ in out]
-                if not vox or any(len(v_) != 2 or len(v_[0]) != 3 or len(v_[1]) != 3 for v_ in vox):
+                if not vox:
+                    why = 'no voxels are generated: the grid does not cover the box'
+                elif any(len(v_) != 2 or len(v_[0]) != 3 or len(v_[1]) != 3 for v_ in vox):
                     why = 'the result is not a list of [minimum corner, maximum corner] pairs'
                 else:
                     steps = [vox[0][1][a] - vox[0][0][a] for a in range(3)]
@@ -8137,3 +8146,188 @@ def ct2(m, run, rule='CT2.container-mesh-is-numbered-afresh-on-every-rebuild'):
             bad.append(('tessellate(%s)' % ('' if delta_kw else 'delta=False'), why))
     run.ob(rule, '%s :: 4 rebuilds x (container delta pushed / delta=False)' % fi.key, not bad, 'vertices and faces of every surface once, in order, numbered without gaps after every rebuild' if not bad else
            '%s: %s   [%d of 2]' % (bad[0][0], bad[0][1], len(bad)), 'geomdl/multi.py:%d in %s' % (fi.node.lineno, fi.key))
+
+
+# ====================================================================================== C12 / C15: the tessellation components do what they are asked, every time
+def tt2(m, run, rule='TT2.component-tessellates-what-it-is-given-every-time'):
+    """TT2: every tessellation component (tessellate.TriangularTessellate, TrimTessellate, QuadTessellate) is built by interpreting its own
+    constructor, its mesh generator replaced by a recorder: tessellate(points, size_u, size_v, further keywords) hands the generator those
+    points, sizes and keywords (the trim component adds its trims, its trim function and its arguments) and stores what it returns;
+    a second call with other points stores the mesh of the *second* points (the components do not cache: abstract.Surface.tessellate
+    decides when to call them, and a forced rebuild must rebuild); reset() empties the component, is_tessellated() tells which state it is in"""
+    for cname in ('TriangularTessellate', 'TrimTessellate', 'QuadTessellate'):
+        cls = ('tessellate', cname)
+        if cls not in m.classes:
+            continue
+        sk = SK(m, dict(STD_ABSTRACTED))
+        sk.construct = True
+        calls = []
+        why = None
+        try:
+            comp = sk.apply(('class', cls), [], {}, None)
+
+            def gen(sk_, node, points, *a, **k):
+                calls.append((points, a, dict(k)))
+                n_ = len(calls)
+                return [Bag('Vertex', id=i, _gen=n_) for i in range(4)], [Bag('Face', id=i, _gen=n_) for i in range(2)]
+            comp._a['_tsl_func'] = Py(gen, 'mesh generator')
+            fi = m.lookup(cls, 'tessellate', 'methods')
+            get = lambda name: sk.call(m.lookup(cls, name, 'getters'), [comp], {})
+            tess = lambda: sk.call(m.lookup(cls, 'is_tessellated', 'methods'), [comp], {})
+            if tess():
+                why = 'a new component reports a tessellation'
+            P1, P2 = pts(6, 3, labelled=True), pts(6, 3, labelled=True)
+            trims = []
+            kw = {'size_u': 2, 'size_v': 3, 'vertex_spacing': 1}
+            if cname == 'TrimTessellate':
+                kw['trims'] = trims
+            if why is None:
+                sk.call(fi, [comp, P1], dict(kw))
+                if len(calls) != 1 or calls[0][0] is not P1:
+                    why = 'the first tessellate() does not hand its points to the mesh generator once'
+                elif any(calls[0][2].get(k_) != v_ for k_, v_ in kw.items()):
+                    why = 'the mesh generator gets the keywords %s, tessellate() was given %s' % (sorted(calls[0][2]), sorted(kw))
+                elif [v._a.get('_gen') for v in get('vertices')] != [1] * 4 or [f._a.get('_gen') for f in get('faces')] != [1] * 2:
+                    why = 'after tessellate() the component does not hold the vertices and faces the generator returned'
+                elif not tess():
+                    why = 'is_tessellated() is false after tessellate()'
+            if why is None:
+                sk.call(fi, [comp, P2], dict(kw))
+                if len(calls) != 2 or calls[1][0] is not P2:
+                    why = 'a second tessellate() with other points does not reach the mesh generator: the component keeps the mesh of the first points (a forced rebuild of a surface, or a changed vertex_spacing, has no effect)'
+                elif [v._a.get('_gen') for v in get('vertices')] != [2] * 4 or [f._a.get('_gen') for f in get('faces')] != [2] * 2:
+                    why = 'after the second tessellate() the component still holds the first mesh'
+            if why is None:
+                sk.call(m.lookup(cls, 'reset', 'methods'), [comp], {})
+                if get('vertices') or get('faces') or tess():
+                    why = 'reset() leaves vertices or faces behind'
+        except Violation as v:
+            why = '%s %s' % (v.msg, v.where())
+        except Raised as ex:
+            why = 'raises %s' % ex.kind
+        except Unsupported as ex:
+            raise AnalysisError('tessellate.%s: interpreter met an unsupported construct: %s' % (cname, ex))
+        ci = m.classes[cls]
+        run.ob(rule, 'tessellate.%s' % cname, why is None, 'hands points and keywords to its generator on every call, holds the latest mesh, reset() empties it' if why is None else why,
+               'geomdl/tessellate.py:%d class %s' % (ci.node.lineno, cname))
+
+
+# ====================================================================================== C05 / C13: the curves extracted from a surface are independent shapes
+def ec2(m, run, rule='EC2.extracted-shapes-are-independent'):
+    """EC2: construct.extract_curves / extract_surfaces / extract_isosurface interpreted on a real non-square B-spline surface / volume built by the
+    classes' own constructors and setters (knots are order tokens): no list or dictionary reachable from one extracted shape is reachable
+    from another extracted shape or from the input - so refining, inserting into or re-knotting one of them changes nobody else"""
+    ab = dict(STD_ABSTRACTED)
+    ab[('knotvector', 'normalize')] = Py(lambda sk, node, kv, *a, **k: [Ord(x.rank) for x in kv], 'knotvector.normalize')
+
+    def build(sk, cname, degs, sizes):
+        pdim = len(degs)
+        total = 1
+        for s_ in sizes:
+            total *= s_
+        o_ = sk.apply(('class', ('BSpline', cname)), [], {}, None)
+        sfx = ['_' + 'uvw'[d] for d in range(pdim)]
+        for d in range(pdim):
+            sk.call(m.lookup(o_._cls, 'degree' + sfx[d], 'setters'), [o_, degs[d]], {})
+        sk.call(m.lookup(o_._cls, 'set_ctrlpts', 'methods'), [o_, pts(total, 3, labelled=True)] + list(sizes), {})
+        for d in range(pdim):
+            p, n = degs[d], sizes[d]
+            sk.call(m.lookup(o_._cls, 'knotvector' + sfx[d], 'setters'), [o_, [Ord(r) for r in [0] * (p + 1) + list(range(1, n - p)) + [n - p] * (p + 1)]], {})
+        return o_
+
+    def containers(ob):
+        seen, out, todo = set(), {}, [(ob, 'self')]
+        while todo:
+            x, path = todo.pop()
+            if id(x) in seen:
+                continue
+            seen.add(id(x))
+            if isinstance(x, Bag):
+                if x is not ob and isinstance(x._cls, tuple):
+                    continue            # (helper objects - evaluators, tessellators - are not state of the shape's definition)
+                for k_, v_ in x._a.items():
+                    if not k_.startswith('__'):
+                        todo.append((v_, path + '.' + k_))
+            elif isinstance(x, list):
+                out[id(x)] = path
+                for i_, y in enumerate(x[:40]):
+                    todo.append((y, '%s[%d]' % (path, i_)))
+            elif isinstance(x, dict):
+                out[id(x)] = path
+                for k_, y in x.items():
+                    todo.append((y, '%s[%r]' % (path, k_)))
+        return out
+    for fname, cname, degs, sizes in (('extract_curves', 'Surface', (2, 1), (4, 3)), ('extract_surfaces', 'Volume', (1, 2, 1), (2, 3, 2)), ('extract_isosurface', 'Volume', (1, 2, 1), (2, 3, 2))):
+        key_f = 'construct.' + fname
+        if key_f not in m.funcs:
+            continue
+        fi = m.func(key_f)
+        sk = SK(m, ab)
+        sk.construct = True
+        why = None
+        try:
+            src = build(sk, cname, degs, sizes)
+            out = sk.call(fi, [src], {})
+            shapes = []
+
+            def collect(x, label):
+                if isinstance(x, Bag):
+                    shapes.append((label, x))
+                elif isinstance(x, dict):
+                    for k_, v_ in x.items():
+                        collect(v_, '%s[%r]' % (label, k_))
+                elif isinstance(x, (list, tuple)):
+                    for i_, v_ in enumerate(x):
+                        collect(v_, '%s[%d]' % (label, i_))
+            collect(out, 'result')
+            if len(shapes) < 2:
+                why = 'returns %d shapes' % len(shapes)
+            else:
+                owned = [('the input', containers(src))] + [(lab, containers(s_)) for lab, s_ in shapes]
+                if len({id(s_) for _, s_ in shapes}) != len(shapes):
+                    why = 'one and the same object is returned at two places of the result'
+                for a_ in range(len(owned)):
+                    for b_ in range(a_ + 1, len(owned)):
+                        if why:
+                            break
+                        both = [i for i in owned[a_][1] if i in owned[b_][1]]
+                        if both:
+                            why = '`%s` of %s and `%s` of %s are one and the same list: an edit of one shape (a knot inserted, a knot vector replaced element by element, a refinement) changes the other' % (
+                                owned[a_][1][both[0]].replace('self', ''), owned[a_][0], owned[b_][1][both[0]].replace('self', ''), owned[b_][0])
+        except Violation as v:
+            why = '%s %s' % (v.msg, v.where())
+        except Raised as ex:
+            why = 'raises %s' % ex.kind
+        except Unsupported as ex:
+            raise AnalysisError('%s: interpreter met an unsupported construct: %s' % (fi.key, ex))
+        run.ob(rule, fi.key, why is None, 'the extracted shapes and the input reach disjoint lists and dictionaries' if why is None else why, 'geomdl/construct.py:%d in %s' % (fi.node.lineno, fi.key))
+
+
+# ====================================================================================== a single sample of an interval without length
+def ls2(m, run, rule='LS2.single-parameter-is-used-as-given'):
+    """LS2: linalg.linspace interpreted with start = stop = a symbolic value and a small number of decimals (2): the result is [that value],
+    exactly - evaluate_single / the vertex re-evaluation of a tessellation pass start = stop = the parameter through the evaluators'
+    sampling, so the point is computed at the parameter asked for, whatever the precision of the shape"""
+    from .skel import Sym
+    fi = m.func('linalg.linspace')
+
+    def make_sk():
+        sk = SK(m, {})
+        sk.exact = True
+        sk.text = True
+        return sk
+
+    def scenario(sk):
+        a = Sym('a')
+        out = sk.call(fi, [a, a, 3], {'decimals': 2})
+        if not isinstance(out, list) or len(out) != 1:
+            return 'returns %s for start = stop' % repr(out)[:100]
+        s_ = _as_sym(out[0])
+        if s_ is None or not s_.same(a):
+            return 'returns [%s] for start = stop = a: the parameter is altered (rounded to the decimals of the shape) before the point is evaluated' % repr(out[0])[:80]
+        return None
+    try:
+        why = forked(make_sk, scenario, fi.key, max_paths=16)
+    except Unsupported as ex:
+        raise AnalysisError('%s: interpreter met an unsupported construct: %s' % (fi.key, ex))
+    run.ob(rule, fi.key, why is None, 'linspace(a, a, n, decimals) is [a]' if why is None else why, 'geomdl/linalg.py:%d in %s' % (fi.node.lineno, fi.key))
